@@ -95,8 +95,25 @@ pub fn replay(path: &str) -> i32 {
         profile: crate::PROFILE,
         threads: std::thread::available_parallelism().map(|n| n.get()).unwrap_or(8),
         only: None,
+        only_item: v["witness"]["item"].as_u64().filter(|_| sig.ends_with("/call-does-not-return")).map(|x| x as usize),
     };
     println!("replaying {} tier={} seed={} signature={}", id, tier.name(), seed, sig);
+    if sig.ends_with("/call-does-not-return") {
+        // a hang is reproduced in a child process so that the liveness monitor can end it
+        let exe = std::env::current_exe().unwrap();
+        let mut cmd = std::process::Command::new(exe);
+        cmd.arg("check").arg(&id).arg("--tier").arg(tier.name()).arg("--seed").arg(format!("{}", seed));
+        if let Some(it) = ctx.only_item {
+            cmd.arg("--item").arg(format!("{}", it));
+        }
+        let st = cmd.status().map(|s| s.code().unwrap_or(3)).unwrap_or(3);
+        if st == 1 {
+            println!("REPRODUCED property={} signature={}", id, sig);
+            return 1;
+        }
+        println!("NOT-REPRODUCED property={} signature={} (child exit {})", id, sig, st);
+        return 0;
+    }
     println!("recorded witness: {}", serde_json::to_string(&v["witness"]).unwrap_or_default());
     let mut rep = (p.run)(&ctx);
     if p.dbg_part && !ctx.is_dbg() {
